@@ -199,6 +199,8 @@ def rel_applicable(case):
 
 def decode(sx, case):
     d = P.decode(sx, case)
+    d["model"].pop("parts_route_same", None)      # C05's own extra observation
+    d["spec"] = {k: v for k, v in d["spec"].items() if k != "parts_route_same"}
     ra = rel_applicable(case)
     if ra is not None and not d.get("skip"):
         d["model"]["addne_relation_ok"] = True
